@@ -228,9 +228,32 @@ def run_gcstress(pid, out, stats, seeds):
         if line.split()[1] != "ok":
             out.violation({"property": pid, "gcstress": sd, "signature": "CONC/gc-deadlock",
                            "what": "commands stopped completing while background gc / flush passes ran: " + line,
-                           "readable": ["vh gcstress --seed %d: 8 goroutines x 4000 commands (RPUSH, LPOP, DEL, INCR, RPOPLPUSH lk0 lk9, LLEN, KEYS, SCAN, EXISTS k k, PEXPIRE 1 ms, explicit gc and flush) on 3 list keys and 3 string keys, GCDuration 1 ms" % sd],
+                           "readable": ["vh gcstress --seed %d: 8 goroutines x 4000 commands (RPUSH, LPOP, DEL, INCR, RPOPLPUSH lk0 lk9, LLEN, KEYS, SCAN, EXISTS lk lk, PEXPIRE 1 ms, explicit gc and flush) on 3 list keys and 3 string keys, GCDuration 1 ms" % sd],
                            "replay_cmd": "bin/check %s --replay <this file>" % pid})
             return
+
+
+def run_lockorder(pid, out, known, confirmed, stats):
+    """C06: the reader form of the lock-order deadlock, staged through the schedule points (vh lockorder):
+    EXISTS a b a (a missing at first) and EXISTS a b meet a and b in opposite orders, a writer waits behind each"""
+    rc, o = C.sh([C.VH, "lockorder"], env=C.go_env(), timeout=60)
+    line = next((l for l in o.splitlines() if l.startswith("LOCKORDER")), "")
+    stats["lockorder"] = line
+    if not line:
+        out.violation({"property": pid, "broken": "run vh lockorder", "detail": o[-300:]}, nofail=True)
+        return
+    f = dict(x.split("=") for x in line.split()[1:])
+    if f.get("staged") != "True" and f.get("staged") != "true":
+        return  # the stage could not be set (the readers no longer stop where they did): nothing was observed
+    if f["done"] != "4/4":
+        sig = "CONC/deadlock:lock-order-readers"
+        text = "EXISTS a b a || RPUSH a x || EXISTS a b || RPUSH b y || RPUSH a z: " + line
+        if sig in known:
+            confirmed.setdefault(sig, text)
+        else:
+            out.violation({"property": pid, "lockorder": True, "signature": sig, "what": text,
+                           "readable": ["vh lockorder (see harness/cmd/vh/lockorder.go for the staging)"],
+                           "replay_cmd": "bin/check %s --replay <this file>" % pid})
 
 
 def run(pid, tier, seed, replay=None):
@@ -255,6 +278,9 @@ def run(pid, tier, seed, replay=None):
     try:
         if replay and "gcstress" in json.load(open(replay)):
             run_gcstress(pid, out, stats, [json.load(open(replay))["gcstress"]])
+            return out.finish()
+        if replay and "lockorder" in json.load(open(replay)):
+            run_lockorder(pid, out, {}, {}, stats)
             return out.finish()
         if replay and "scenario" not in json.load(open(replay)):
             # a sequential stall history (trace-style replay)
@@ -353,6 +379,7 @@ def run(pid, tier, seed, replay=None):
         if pid == "C06" and not replay:
             run_stalls(pid, out, d, known, confirmed, pf, stats)
             run_gcstress(pid, out, stats, range(seed * 100, seed * 100 + (24 if tier == "thorough" else 4)))
+            run_lockorder(pid, out, known, confirmed, stats)
         for sig in sorted(confirmed):
             out.known_confirmed.append(known[sig])
         cov["evaluations"] = stats["grants"]
